@@ -155,15 +155,18 @@ theorem callT_good (s : Svc) (g : Good s) (tmo now : Nat) : Good (s.callT tmo no
   · simp only [Svc.callT, ucInc_eq]
     intro hr; have := g.parked hr; omega
 
+theorem pollReadyW_good (s : Svc) (g : Good s) (w : Nat) : Good (s.pollReadyW w).1 := by
+  refine ⟨g.count_eq, g.fresh, ?_⟩
+  simp only [Svc.pollReadyW, ucAvail_snd]
+  intro hr
+  split at hr
+  · rename_i hlt; have := g.parked hr; omega
+  · rename_i hlt; omega
+
 theorem good_step (s : Svc) (g : Good s) (op : Op) : Good (s.step op) := by
   cases op with
-  | ready =>
-    refine ⟨g.count_eq, g.fresh, ?_⟩
-    simp only [Svc.step, Svc.pollReady, ucAvail_snd]
-    intro hr
-    split at hr
-    · rename_i hlt; have := g.parked hr; omega
-    · rename_i hlt; omega
+  | ready => exact pollReadyW_good s g 0
+  | readyW w => exact pollReadyW_good s g w
   | call now => exact callT_good s g s.tmo now
   | callT tmo now => exact callT_good s g tmo now
   | poll k now hs =>
@@ -193,6 +196,7 @@ theorem good_run (s : Svc) (g : Good s) (ops : List Op) : Good (s.run ops) := by
 theorem step_cap (s : Svc) (op : Op) : (s.step op).cap = s.cap := by
   cases op with
   | ready => rfl
+  | readyW w => rfl
   | call now => rfl
   | callT tmo now => rfl
   | poll k now hs =>
@@ -218,6 +222,7 @@ theorem step_count_le (s : Svc) (op : Op) (h : s.count ≤ s.cap) (hc : s.contra
   rw [step_cap]
   cases op with
   | ready => exact h
+  | readyW w => exact h
   | call now => simp only [Svc.step, Svc.call, Svc.callT, ucInc_eq]; simp only [Svc.contractOk] at hc; omega
   | callT tmo now => simp only [Svc.step, Svc.callT, ucInc_eq]; simp only [Svc.contractOk] at hc; omega
   | poll k now hs =>
